@@ -26,7 +26,7 @@ TECHNIQUE = ('deterministic simulation: real-process upgrade + in-child '
              'per-mutation simulation probe, sqlite3 PRAGMA '
              'foreign_key_list / foreign_key_check observation')
 PLAN = {
-    'quick': {'count': 400, 'max_wall': 170, 'shrink_budget': 25,
+    'quick': {'count': 800, 'max_wall': 170, 'shrink_budget': 25,
               'shrink_wall': 120},
     'thorough': {'count': 8000, 'max_wall': 1500, 'shrink_budget': 60,
                  'shrink_wall': 300},
